@@ -833,6 +833,41 @@ def main():
             oor_meta.append((entry, val))
         oor_jobs.append({"op": "encode", "seq": [3, val, 0, 0]})
         oor_meta.append(("mlw_codec.encode", val))
+    # round 6 (seeded change C07-r6m2): the same through EVERY integer container.  An unchecked cast to the codec's 16-bit type
+    # (`astype(int16)`) reduces modulo 2^16, so the probes sit just outside +-255, +-2^15, +-2^16 and 2^32 (and their wrapped images
+    # k, 2^16 + k, 2^32 + k with |k| <= 255), each in every dtype that can hold it; in-range controls in every dtype are counted,
+    # not judged (refusing a container type is not the property's subject)
+    INT_RANGES = {"int8": (-2 ** 7, 2 ** 7 - 1), "uint8": (0, 2 ** 8 - 1), "int16": (-2 ** 15, 2 ** 15 - 1), "uint16": (0, 2 ** 16 - 1),
+                  "int32": (-2 ** 31, 2 ** 31 - 1), "uint32": (0, 2 ** 32 - 1), "int64": (-2 ** 63, 2 ** 63 - 1), "uint64": (0, 2 ** 64 - 1),
+                  "object": (-2 ** 80, 2 ** 80)}
+    wide_values = sorted({sgn * (base + d) for sgn in (1, -1) for base in (255, 2 ** 15, 2 ** 16, 2 ** 31, 2 ** 32, 2 ** 48, 2 ** 63, 2 ** 64)
+                          for d in (-257, -255, -5, -1, 0, 1, 3, 5, 200, 255, 256, 257)} |
+                         {65541, -65736, 131089, 2 ** 32 + 3, 2 ** 16 + 17, 3 * 2 ** 16 - 200, 2 ** 63 - 1, -2 ** 63, 2 ** 64 - 1, 2 ** 64 - 5, 2 ** 70 + 7})
+    n_wide0 = len(oor_jobs)
+    for dt, (lo_, hi_) in INT_RANGES.items():
+        if dt == "int16":
+            vals_dt = [v for v in wide_values if lo_ <= v <= hi_ and abs(v) > 255]      # the int16 probes above stay as they were
+        else:
+            vals_dt = [v for v in wide_values if lo_ <= v <= hi_]
+        if not ck.thorough and len(vals_dt) > 40:
+            keep = [v for v in vals_dt if abs(v) > 255 and ((v + 2 ** 15) % 2 ** 16) - 2 ** 15 in range(-255, 256)]     # wrap into the legal range
+            rest = [v for v in vals_dt if v not in keep]
+            rng.shuffle(rest)
+            vals_dt = keep + rest[:max(0, 40 - len(keep))]
+        for val in vals_dt + [v for v in (0, 3, 255, -255, 127) if lo_ <= v <= hi_ and dt != "int16"]:
+            for entry in entries:
+                w = [rng.randint(max(lo_, -3), 3) for _ in range(32)]
+                w[rng.choice([0, 9, 31])] = val
+                p = [cfg0.ifm_ublock.depth, cfg0.ofm_ublock.depth, 4, 1, 1, 8, cfg0.ofm_ublock.depth * 2, 0, 0, 8, 8, 8]
+                oor_jobs.append({"op": "reorder", "p": p, "w": w, "shape": [4, 1, 1, 8], "entry": entry, "acc": acc0.value,
+                                 "dilation": [1, 1], "layout": "c", "dtype": dt})
+                oor_meta.append((entry, val))
+            oor_jobs.append({"op": "encode", "seq": [3, val, 0, 0], "seq_dtype": dt})
+            oor_meta.append(("mlw_codec.encode", val))
+            if dt == "object":
+                oor_jobs.append({"op": "encode", "seq": [3, val, 0, 0]})            # plain Python ints of any size
+                oor_meta.append(("mlw_codec.encode", val))
+    ck.count("range_probe_wide_dtype_jobs", len(oor_jobs) - n_wide0)
     must_accept = [x == "1" for x in common.run_model(["mlwvalid " + csv(j.get("seq", j.get("w"))) for j in oor_jobs])]
     oor_res = run_jobs(oor_jobs, ext, nproc=8)
     runs = [("", oor_jobs, oor_meta, must_accept, oor_res)]
@@ -847,16 +882,20 @@ def main():
             if "crash" in r:
                 ck.violation(f"{name} with the weight {val}{tag} takes the process down: {report_head(r['stderr'])[:160]}",
                              {"entry": name, "value": val, "job": job, "report": r["stderr"]})
+            elif ok_in and (job.get("dtype", job.get("seq_dtype", "int16")) != "int16"):
+                # in-range values in another container: either outcome is fine, an accepted one must decode to the source
+                ck.count("range_probe_valid_%s_%s" % (job.get("dtype", job.get("seq_dtype")), "accepted" if "enc" in r else "rejected"))
             elif ok_in:
                 ck.count("range_probe_valid_" + ("accepted" if "enc" in r else "rejected"))
                 if "enc" not in r:
                     ck.violation(f"{name} rejects the valid weight {val}{tag}: {r.get('exc')}", {"entry": name, "value": val, "job": job, "result": r})
             elif "exc" in r:
                 ck.count("out_of_range_rejected_" + r["exc"].split(":")[0])
+                ck.count("out_of_range_rejected_dtype_" + str(job.get("dtype", job.get("seq_dtype", "list"))))
             else:
                 ck.count("out_of_range_accepted")
                 dec = r.get("dec") or []
-                ck.violation(f"{name} accepts the weight {val} (Lean: outside the signed 9-bit range, must be rejected){tag} and returns a "
+                ck.violation(f"{name} accepts the weight {val} in a {job.get('dtype', job.get('seq_dtype', 'list'))} container (Lean: outside the signed 9-bit range, must be rejected){tag} and returns a "
                              f"{len(r.get('enc', '')) // 2}-byte stream that decodes to {dec[:4]}…",
                              {"entry": name, "value": val, "job": job, "result": {k: (x if k != 'dec' else x[:40]) for k, x in r.items()}})
 
